@@ -524,3 +524,72 @@ func VerifC05SubstringFaults(v *vrt.T) {
 	}
 	v.Reach("end")
 }
+
+// VerifC04StatefulCopies: the per-group copies (CopyReset) of one compiled expression keep
+// separate stateful-function state: count() and spread("a") evaluated on copy A, copy B
+// and the original in an arbitrary interleaving, with Reset of one copy in between, give
+// for each copy the value determined by that copy's own earlier evaluations since its last
+// reset (the calls counted / the range of its own values), never by the other copies'.
+func VerifC04StatefulCopies(v *vrt.T) {
+	which := v.Choose("function", 2)
+	var node ast.Node
+	if which == 0 {
+		node = &ast.FunctionNode{Type: ast.GlobalFunc, Func: "count"}
+	} else {
+		node = &ast.FunctionNode{Type: ast.GlobalFunc, Func: "spread", Args: []ast.Node{&ast.ReferenceNode{Reference: "a"}}}
+	}
+	orig, err := NewExpression(node)
+	v.Assert(err == nil, "stateful function expression compiles")
+	if err != nil {
+		return
+	}
+	// the copies may be taken before or after the original has been used
+	early := v.Bool("original evaluated before the copies are taken")
+	type ref struct {
+		n        int64
+		has      bool
+		min, max float64
+	}
+	var refs [3]ref
+	step := func(c int, e Expression, name string) {
+		x := v.Float64(name)
+		v.Assume(x == x)
+		s := NewScope()
+		s.Set("a", x)
+		res, err := e.Eval(s)
+		r := &refs[c]
+		r.n++
+		if !r.has || x < r.min {
+			r.min = x
+		}
+		if !r.has || x > r.max {
+			r.max = x
+		}
+		r.has = true
+		v.Assert(err == nil, "stateful function evaluates")
+		if err != nil {
+			return
+		}
+		if which == 0 {
+			got, ok := res.(int64)
+			v.Assert(ok && got == r.n, "count() is the number of evaluations of this copy since its reset")
+		} else {
+			got, ok := res.(float64)
+			v.Assert(ok && vrt.SameF64(got, r.max-r.min), "spread() is the range of this copy's own values since its reset")
+		}
+	}
+	if early {
+		step(2, orig, "x0")
+	}
+	exprs := [3]Expression{orig.CopyReset(), orig.CopyReset(), orig}
+	steps := v.Bound("steps", 4)
+	for i := 0; i < steps; i++ {
+		c := v.Choose("copy", 3)
+		if v.Choose("reset first", 2) == 1 {
+			exprs[c].Reset()
+			refs[c] = ref{}
+		}
+		step(c, exprs[c], "x")
+	}
+	v.Reach("end")
+}
